@@ -7,8 +7,8 @@ FUNCTIONS = ["Type_Of", "Type_Method_At_Offset", "method_at_offset", "type_metho
              "Table_Get", "Table_Rem", "Tree_Get", "Tree_Rem", "Range_Get", "String_Rem", "print_to_with"]
 ASSUMPTIONS = []
 EXPLANATION = "every failing operation is executed symbolically with a free invalid argument; the throw oracle checks the exception object and that the operand is unchanged at the throw point"
-US = ["Type_Scan.0:40", "Type_Scan.1:40", "strcmp.0:26", "strlen.0:8", "Tuple_Len.0:8", "memmove.0:8", "memmove.1:8", "memmove.2:40", "memmove.3:40", "watch.0:10", "verif_on_throw.0:10"]
-NCASES = 24
+US = ["Table_Ideal_Size.0:26", "Type_Scan.0:40", "Type_Scan.1:40", "strcmp.0:26", "strlen.0:8", "Tuple_Len.0:8", "memmove.0:8", "memmove.1:8", "memmove.2:40", "memmove.3:40", "watch.0:10", "verif_on_throw.0:10"]
+NCASES = 31
 DISPATCH = [Ob("misuse.case%02d" % c, "C12/dispatch_errors.c", defs=["CASE=%d" % c], unwind=10, unwindset=US, checks=["bounds", "pointer"], tiers=("quick", "thorough"), object_bits=14,
                desc="dispatcher-level misuse case %d (see harness)" % c) for c in range(1, NCASES + 1)]
 OBLIGATIONS = (
